@@ -72,7 +72,7 @@ func opsString(ops []int) string {
 
 func (p Prog) String() string {
 	s := fmt.Sprintf("%s n=%d", p.Kind, p.N)
-	if p.Kind == "shared" || p.Kind == "multi" {
+	if p.Kind == "shared" || p.Kind == "multi" || p.Kind == "dshuf" {
 		s += fmt.Sprintf(" shape=%d m=%d k=%d", p.Shape, p.M, p.K)
 	}
 	if len(p.Ops) > 0 {
@@ -263,6 +263,58 @@ func build(p Prog, in ...bigslice.Slice) bigslice.Slice {
 			r := bigslice.Reshard(s, p.M)
 			return join(bigslice.Reduce(bigslice.Reduce(r, add), add), bigslice.Reshard(r, p.K))
 		}
+	case "dshuf":
+		// One slice value x consumed BOTH directly (pipelined / narrow dependency) and
+		// through shuffles into 1, 2 and 3 shards, in one invocation. Ops lists the
+		// consumers in dependency (= compilation) order; M=1 constructs them in reverse.
+		var x bigslice.Slice
+		switch p.Shape {
+		case 0: // an ordinary shared sub-slice
+			x = bigslice.Map(constSrc(p.N), func(k, v int) (int, int) { return k, v })
+		case 1: // a materialized slice (pipeline cut)
+			x = bigslice.Map(constSrc(p.N), func(k, v int) (int, int) { return k, v }, bigslice.ExperimentalMaterialize)
+		case 2: // a reused result (pipeline cut)
+			x = in[0]
+		case 3: // a reused result behind Prefixed
+			x = bigslice.Prefixed(in[0], 1)
+		}
+		consumer := func(code int) bigslice.Slice {
+			switch code {
+			case 0:
+				return bigslice.Map(x, func(k, v int) (int, int) { return k, v + 1 })
+			case 1, 2, 3:
+				if code == x.NumShard() {
+					return bigslice.Reshuffle(x)
+				}
+				return bigslice.Reshard(x, code)
+			case 4:
+				return bigslice.Filter(x, func(k, v int) bool { return true })
+			case 5:
+				return x
+			case 6: // a 1-shard shuffle consumer that is not a Reshard
+				return bigslice.Reshard(bigslice.Map(bigslice.Reshard(x, 1), func(k, v int) (int, int) { return k, v }), 2)
+			}
+			panic("bad consumer")
+		}
+		cs := make([]bigslice.Slice, len(p.Ops))
+		if p.M == 1 {
+			for i := len(p.Ops) - 1; i >= 0; i-- {
+				cs[i] = consumer(p.Ops[i])
+			}
+		} else {
+			for i := range p.Ops {
+				cs[i] = consumer(p.Ops[i])
+			}
+		}
+		cg := bigslice.Cogroup(cs...)
+		switch len(cs) {
+		case 2:
+			return bigslice.Map(cg, func(k int, a, b []int) (int, int) { return k, len(a) + len(b) })
+		case 3:
+			return bigslice.Map(cg, func(k int, a, b, c []int) (int, int) { return k, len(a) + len(b) + len(c) })
+		case 4:
+			return bigslice.Map(cg, func(k int, a, b, c, d []int) (int, int) { return k, len(a) + len(b) + len(c) + len(d) })
+		}
 	case "multi":
 		// consumers of several result arguments
 		switch p.Shape {
@@ -377,6 +429,38 @@ func enumerate(thorough bool) []Case {
 		cases = append(cases, c)
 	}
 	allOps := seq(numChainOps)
+
+	// F0 (first, cheap: a budget cut cannot skip it): the same slice value consumed
+	// directly and through shuffles into 1, 2 and 3 shards in one invocation, in both
+	// compilation orders and both construction orders; the value is an ordinary
+	// sub-slice, a materialized slice, a reused result, a reused result behind Prefixed.
+	var consumerLists [][]int
+	for _, d := range []int{0, 4, 5} {
+		for _, k := range []int{1, 2, 3, 6} {
+			consumerLists = append(consumerLists, []int{d, k}, []int{k, d})
+		}
+	}
+	consumerLists = append(consumerLists, []int{0, 1, 2, 3}, []int{3, 2, 1, 0}, []int{1, 0, 3, 2}, []int{0, 1, 5}, []int{1, 5, 0}, []int{1, 2, 0})
+	for _, cl := range consumerLists {
+		for n := 1; n <= 3; n++ {
+			for shape := 0; shape <= 3; shape++ {
+				for rev := 0; rev <= 1; rev++ {
+					p := Prog{Kind: "dshuf", Shape: shape, N: n, M: rev, Ops: cl}
+					fam := fmt.Sprintf("direct+shuffle/x=%s", []string{"shared", "materialized", "result", "prefixed-result"}[shape])
+					if shape <= 1 {
+						both(Case{Family: fam, Steps: []Step{{0, p, nil}}})
+						continue
+					}
+					for _, fn := range []int{1, 2} {
+						both(Case{Family: fam, Steps: []Step{
+							{0, Prog{Kind: "chain", N: n, Ops: []int{opMap}}, nil},
+							{fn, p, []int{0}},
+						}})
+					}
+				}
+			}
+		}
+	}
 
 	// F1: operator chains to depth 3 over the whole alphabet, 1..3 source shards.
 	for _, ch := range chains(allOps, 3) {
